@@ -33,6 +33,17 @@ CFG_TRACE = "INIT Init\nNEXT Next\nCHECK_DEADLOCK FALSE\nINVARIANT Emit\nINVARIA
 # operations, each a sum of <= 12 products of numbers in [0, 16] (one exp/log round trip for `&`):
 # relative error <= ~100 ulp = 1e-14.  1e-9 leaves five orders of magnitude of head room.
 TOL = 1e-9
+# normalize: p_i / total with total = fl(sum of <= 9 non-negative floats): relative error of the sum <= 8u,
+# of the correctly rounded quotient <= u, of the inputs (<= 2 earlier operations on correctly rounded
+# w/d) <= ~10u, u = 1.1e-16 -> < 3e-15 relative per entry, total of the result within 10u of 1.
+# 1e-12 (relative, per entry and for the total) leaves more than two orders of magnitude of head room and
+# still resolves a total that differs from 1 by 1e-6.
+TOL_NORM = 1e-12
+# absolute floor of the relative test: an event of the `tiny` class (abstract weight 0, real weight
+# <= 2^-64 of the mass) can be amplified by the totals of the <= 2 earlier steps (each >= 2^-15 by the
+# magnitude bound of the family): 2^-64 * 2^15 = 2^-49 = 1.8e-15; every tracked non-zero probability of the
+# families is >= 1e-8, so 1e-13 hides nothing
+ABS_FLOOR = 1e-13
 LN2 = math.log(2.0)
 NA = 4
 MAXN = 6
@@ -109,6 +120,7 @@ def fix_rec(r):
 
 
 def fix_inst(inst):
+    inst.setdefault("OPS", list(OPS))
     fix_rec(inst["init"])
     for r in inst["O"]:
         fix_rec(r)
@@ -357,6 +369,8 @@ def o_tree(inst):
             out[chain] = posts
             return
         for op in OPS:
+            if op not in inst.get("OPS", OPS):
+                continue
             for j in range(menu(inst, op)):
                 a = o_args(inst, D, op, j)
                 r = o_step(inst, D, sc, n, op, j)
@@ -372,7 +386,13 @@ def o_tree(inst):
                     extra = list(a)
                 elif a and isinstance(a[0], (F, int)):
                     extra = [a]
-                worst[0] = max(worst[0], magnitude(D, post, [obs], *extra))
+                if "MAGLIM" in inst:
+                    # near-normalised family: the spec multiplies with cross-cancellation, sums within one
+                    # measure: bound every measure on its own (the family is additionally model checked
+                    # in bulk for overflow-guard trips, see make_near_cases)
+                    worst[0] = max([worst[0]] + [magnitude(x) for x in (D, post, [obs], *extra)])
+                else:
+                    worst[0] = max(worst[0], magnitude(D, post, [obs], *extra))
                 tn2 = o_tiny_after(inst, D, tn, sc2, op, j, a, post)
                 rec(post, sc2, n + 1, chain + ((op, j + 1),), posts + [(post, obs, tn2)], tn2)
 
@@ -541,10 +561,11 @@ def drift_once(ctx, step, key, detail):
         ctx.drift(step, detail)
 
 
-def compare(case, obj, exp, *, ordered=True, outside=True):
+def compare(case, obj, exp, *, ordered=True, outside=True, tol=None):
     """Compare a real distribution with the exact expected measure.
     -> (violations [(clause, text)], drifts [(step, text)])"""
     viol, drift = [], []
+    tol = TOL if tol is None else tol
     labels, inv = case.labels, case.inv
     try:
         items = list(obj.items())
@@ -564,8 +585,8 @@ def compare(case, obj, exp, *, ordered=True, outside=True):
         real[a] = real.get(a, 0.0) + float(p)
     for e in list(exp) + [e for e in real if e not in exp]:
         x, r = exp.get(e, F(0)), real.get(e, 0.0)
-        if not (abs(r - float(x)) <= TOL * max(1.0, abs(float(x)))):
-            viol.append(("value", f"P({conc(e, labels)!r}) = {r!r}, exact {x}"))
+        if not (abs(r - float(x)) <= tol * max(1.0, abs(float(x))) if tol == TOL else abs(r - float(x)) <= tol * abs(float(x)) + ABS_FLOOR):
+            viol.append(("value", f"P({conc(e, labels)!r}) = {r!r}, exact {x} = {float(x)!r}"))
             return viol, drift
     # prob() agrees with items() on the support, is 0 outside
     for e in exp:
@@ -631,7 +652,7 @@ def shape_of(D):
     if any(p == 0 for p in ps):
         tags.append("zero-entries")
     if sum(ps) != 1:
-        tags.append("unnormalised")
+        tags.append("near-normalised" if abs(sum(ps) - 1) < F(1, 100000) else "unnormalised")
     if any(len(e) == 2 for e in D):
         tags.append("pair-events")
     if len(ps) == 1:
@@ -649,7 +670,7 @@ def judge(ctx, cases, *, corrupt=None, tamper=None, ndraws=None, corrupt_init=No
     trees = []
     for c in cases:
         tree, mag = o_tree(c.inst)
-        if mag >= MAGLIM:
+        if mag >= c.inst.get("MAGLIM", MAGLIM):
             raise TLCFailure(f"instance beyond the magnitude bound reached the batch ({mag})")
         trees.append(tree)
     res = run_tlc(ctx.workdir / "mc", MODULE, CFG, files={"batch.json": batch},
@@ -808,7 +829,10 @@ def replay_case(ctx, i, c, chains, traces, ndraws, corrupt, corrupt_init=None):
                         report(v, chain[:k - 1], op, "", "value", f"expectation {out!r}, exact {eobs}", pre, j)
                     nodes[(v, prefix)] = (pobj if ok else None, exp, sc2)
                     continue
-                viol, ds = compare(c, out, exp, ordered=(op != "and" and v != "uniform_set"))
+                viol, ds = compare(c, out, exp, ordered=(op != "and" and v != "uniform_set"),
+                                   tol=(TOL_NORM if op == "norm" else None))
+                if op == "norm" and not viol and not (abs(sum(out.values()) - 1.0) <= TOL_NORM):
+                    viol = [("total", f"total after normalize {sum(out.values())!r}")]
                 if op == "shift" and not viol:
                     viol = softmax_corner_checks(c, out, inst["init"], sc2)
                 for clause, text in viol:
@@ -922,6 +946,56 @@ def validate_traces(ctx, cases, traces):
 
 
 # --------------------------------------------------------------------------------------------
+NEAR_WEIGHTS = [
+    ([500000, 500004], 1000000), ([500000, 499997], 1000000), ([250000, 250000, 500003], 1000000),
+    ([500000, 0, 500004], 1000000), ([999996], 1000000), ([333333, 333333, 333333], 1000000),
+    ([65536, 65537], 131072), ([65536, 32768, 32767], 131072), ([131071], 131072), ([65536, 0, 65535], 131072),
+    ([32768, 32768, 32768, 32769], 131072),
+]
+NEAR_OPS = ["marg", "mix", "norm", "expect"]
+NEAR_MAGLIM = 2 ** 28
+
+
+def make_near_cases(rng, n, ctx=None):
+    """Near-normalised inputs: total within 1e-5 of 1 but not 1 (dict / table / from_pairs backed).
+    Chains of 2 operations among marginalize, scaled mixture, normalize, expectation; operands and
+    mixture weights dyadic so that the exact arithmetic of the spec stays inside 30 bits."""
+    cases = []
+    pools = sorted(POOLS)
+    while len(cases) < n:
+        w, d = NEAR_WEIGHTS[len(cases) % len(NEAR_WEIGHTS)]
+        inst = make_instance(rng, 2)
+        atoms = rng.sample(range(1, NA + 1), len(w))
+        ww = list(w)
+        rng.shuffle(ww)
+        inst["init"] = {"kind": ["dict", "table", "dict", "pairs"][len(cases) % 4], "ev": [[a] for a in atoms], "w": ww, "d": d,
+                        "k": [0] * len(w), "ni": [0] * len(w)}
+        O = []
+        for _ in range(2):
+            r = rand_rec(rng, kind=rng.choice(["dict", "table", "uniform", "det"]), size=rng.choice([1, 2, 2, 4]))
+            if r["kind"] in ("dict", "table"):
+                r["d"] = rng.choice([1, 2, 4])
+            O.append(r)
+        inst["O"] = O
+        dy = [(1, 2), (1, 4), (3, 4), (1, 1), (2, 1), (0, 1)]
+        inst["MX"] = []
+        for _ in range(3):
+            a, b = rng.choice(dy[:5]), rng.choice(dy)
+            inst["MX"].append({"o": rng.randrange(2) + 1, "an": a[0], "ad": a[1], "bn": b[0], "bd": b[1]})
+        inst["G"] = [[rng.randint(-2, 3) for _ in range(4)], [rng.randint(0, 2) for _ in range(3)]]
+        inst["OPS"] = list(NEAR_OPS)
+        inst["MAGLIM"] = NEAR_MAGLIM
+        fix_inst(inst)
+        _, mag = o_tree(inst)
+        if mag >= NEAR_MAGLIM:
+            if ctx is not None:
+                ctx.skip("near-normalised instance beyond the magnitude bound")
+            continue
+        pool = pools[len(cases) % len(pools)]
+        cases.append(Case(inst, pool, rng.sample(range(len(POOLS[pool])), NA)))
+    return cases
+
+
 def make_cases(rng, n, depth, ctx=None):
     cases = []
     pools = sorted(POOLS)
@@ -984,7 +1058,8 @@ def run(ctx):
                 "(instance, object) sample traces with >= 2 distinct events drawn")
     ctx.assumptions = [
         "TLC evaluates the TLA+ operators correctly (every emitted measure is cross-checked against an independent Fraction oracle)",
-        "float results are compared with 1e-9 relative slack (DESIGN 5.1, direct algebraic results)",
+        "float results are compared with 1e-9 relative slack (DESIGN 5.1, direct algebraic results); results of normalize with 1e-12 relative per entry and for the total (derivation at TOL_NORM)",
+        "is_normalized / isclose are tolerance predicates by design and are never called or judged",
         "softmax scores are integer multiples of ln 2 (exact rational probabilities) plus three arbitrary real shifts",
         "sampling clauses are judged on the recorded draws only (60 / 200 per object and seed)"]
     if ctx.tier == "quick":
@@ -996,6 +1071,9 @@ def run(ctx):
         ctx.count("exhaustive_initial_measures", len(cases))
         for k in range(0, len(cases), 150):
             judge(ctx, cases[k:k + 150])
+    near = make_near_cases(rng, 22 if ctx.tier == "quick" else 110, ctx)
+    ctx.count("near_normalised_instances", len(near))
+    judge(ctx, near)
     for depth, n in plan:
         cases = make_cases(rng, n, depth, ctx)
         chunk = 150 if depth == 2 else 20
